@@ -86,7 +86,8 @@ class Contract:
         return True
 
     def call(self, f, a):
-        return f(**a.__dict__)
+        # argument names starting with "_" are ghost values for the clauses, not parameters
+        return f(**{k: v for k, v in a.__dict__.items() if not k.startswith("_") and k != "old"})
 
     # names -------------------------------------------------------------------
     @classmethod
